@@ -1,4 +1,4 @@
-# usage: /venv/bin/python seed_store.py Cxx   -- copies /tmp/seed/Cxx/{patch.diff,demo.py,notes.txt} into seeded/Cxx, runs seed_try.sh on both tiers, writes meta.json
+# usage: /venv/bin/python seed_store.py Cxx [srcdir [destname]]   -- copies /tmp/seed/Cxx/{patch.diff,demo.py,notes.txt} into seeded/Cxx, runs seed_try.sh on both tiers, writes meta.json
 import json, os, shutil, subprocess, sys, re
 META = {
  "C01": ("cRF time-dependent tensor: Foerster gain terms added without the compensating loss term (trace no longer preserved)",
@@ -37,9 +37,55 @@ META.update({
  "C20": ("_calculate_ranges caches the block table keyed on (length, size) without the range start",
          "parallel branch active and two consecutive distributed ranges of the same length and process count but different start on the same configuration object"),
 })
+
+META2 = {
+ "C01": ("legacy secularize() works on the raw storage instead of the basis-managed data: secularises in whatever basis the tensor was last stored in",
+         "tensor-form tensor created/last used outside, then `with eigenbasis_of(H): R.secularize()` with no read of R.data inside the context beforehand"),
+ "C02": ("ReducedDensityMatrixPropagator caches the effective (RWA) Hamiltonian matrix on first use, keyed on the basis id only",
+         "the same propagator instance used twice with set_rwa() switched on/changed or ham.data assigned in between"),
+ "C03": ("dipole_dipole_interaction normalises the connecting vector in place (`R /= RR`): raises for integer positions, and the callers swallow the error and store zero coupling",
+         "positions given as integers (lists of ints / int arrays) for both molecules of a pair, set_coupling_by_dipole_dipole"),
+ "C04": ("BasisManaged.__copy__ registers the copy only if the original is already in the manager's current basis",
+         "nested contexts; object touched in the outer context only; copy.copy() made in the inner context and not read there; (patch re-based on the tree after fix e895416)"),
+ "C05": ("units contexts remember the units active when the context OBJECT was created instead of when it is entered",
+         "a context object kept in a variable (e_units = qr.energy_units('1/cm')) and entered under other units than it was created in; nesting or later re-use"),
+ "C06": ("SpectralDensity.get_FTCorrelationFunction(temperature=T) only fills in a missing T instead of overriding the stored one",
+         "a spectral density with T in its parameters (or derived from a correlation function, or used before) asked for bath functions at another temperature"),
+ "C07": ("operator-form apply() takes a Hermitian shortcut for SelfAdjointOperator subclasses (A + A^dagger)",
+         "operator-form Redfield/Lindblad tensor, apply() on a ReducedDensityMatrix/DensityMatrix whose data were filled with non-Hermitian content after construction"),
+ "C08": ("multi-time EvolutionSuperOperator.apply() reads the raw storage instead of the basis-managed data",
+         "apply('all' | axis | list of times) inside eigenbasis_of() with no earlier read of the superoperator in that context"),
+ "C09": ("CorrelationFunction.copy() of functions with non-overdamped components shares the data array with the original",
+         "function containing an UnderdampedBrownian component, copy(), then an in-place addition to the copy or the original"),
+ "C10": ("displacement operator exponentiated in a 20-level instead of a 100-level basis before the 20x20 table is taken",
+         ">= ~12 vibrational levels with HR ~ 1, or HR >= 4 with >= 6 levels; orthogonality still holds"),
+ "C11": ("retained frequency axis of absorption spectra starts at rwa - (Nt//2) dw: one step too high for odd Nt",
+         "TimeAxis with an odd number of points"),
+ "C12": ("R1f* pathways take the Hermitian-conjugate element of the evolution superoperator during t2",
+         "mult=2, t2 > 0, at least two bright one-exciton states of different energy, coherences kept by the evolution"),
+ "C13": ("FrequencyAxis.get_TimeAxis reads the units-managed centre frequency outside its energy_units('int') block",
+         "get_TimeAxis() called inside a non-internal energy-units context on a frequency axis not centred at zero"),
+ "C14": ("T = 0 branch of _thermal_population takes argmin of the bare instead of the relaxed (E - lambda) site energies",
+         "thermal_excited_state, strong_coupling, temperature exactly 0, site-dependent baths that re-order the relaxed energies"),
+ "C15": ("Hamiltonian.get_RWA_data cached with a key computed before the Hamiltonian is transformed to the context basis",
+         "Hamiltonian with RWA; a propagate() outside any context followed by a propagate() inside eigenbasis_of(ham) on the same objects"),
+ "C16": ("KTHierarchy structure (including Gamma) cached per (nbath, depth)",
+         "two hierarchies of equal shape but different bath correlation times built in one process"),
+ "C17": ("_split_relaxation_matrix zeroes the diagonal of the propagator's (= the user's) rate matrix in place",
+         "get_PropagationMatrix(corrections >= 0) with a RateMatrix or float64 array, then anything done afterwards with the propagator or the rate matrix"),
+ "C18": ("ValueAxis drops its value array from the pickled state and rebuilds it on load from units-managed start/step",
+         "object with a FrequencyAxis saved without a units context and loaded inside a non-internal energy-units context"),
+ "C19": ("`if self.current_tag is not None` -> `if self.current_tag`: falsy tags (0, '') are treated as no tag",
+         "pathways resolution, a tagged addition with tag 0 or '' to a type that already holds another pathway"),
+ "C20": ("delta terms of the Redfield tensor moved before the distributed loop: every rank adds them, the reduction counts them `size` times",
+         "Redfield tensor in tensor form computed on more than one (simulated) process"),
+}
 pid = sys.argv[1]
-src = "/tmp/seed/" + pid
-dst = "/verif/seeded/" + pid
+src = sys.argv[2] if len(sys.argv) > 2 else "/tmp/seed/" + pid
+dname = sys.argv[3] if len(sys.argv) > 3 else pid
+dst = "/verif/seeded/" + dname
+if dname != pid:
+    META = META2
 os.makedirs(dst, exist_ok=True)
 for f in ("patch.diff", "demo.py"):
     shutil.copy(os.path.join(src, f), os.path.join(dst, f))
@@ -52,7 +98,7 @@ for tier in ("quick", "thorough"):
     res[tier] = {"demo_exit_unmodified": int(m.group(1)), "demo_exit_with_change": int(m.group(2)), "check_exit": int(m.group(3)), "first_clause": m.group(4).strip()[:160]}
     print(out[:200])
 head = subprocess.run(["git", "-C", "/repo", "rev-parse", "--short", "HEAD"], capture_output=True, text=True).stdout.strip()
-meta = {"property": pid, "origin": "fresh sub-agent given only the property text and a scratch worktree",
+meta = {"property": pid, "origin": "fresh sub-agent given only the property text and a scratch worktree" + (" (second round: asked to aim at a different clause than the first seed)" if dname != pid else ""),
         "what": META[pid][0], "needs_to_manifest": META[pid][1],
         "confirmed": {"repo_head": head, "patch_applies": True,
                       "pinned_suite_with_change": "148/148 stable tests pass (git -C /repo apply; ./baseline.sh; git -C /repo checkout -- .)",
